@@ -2,6 +2,7 @@ package props
 
 import (
 	"fmt"
+	"math"
 	"sort"
 	"strings"
 	"testing"
@@ -41,6 +42,8 @@ func cmpEnum(a *attrs, p, q protoreflect.EnumDescriptor) {
 	}
 	a.eq(n+" ReservedNames", names(p.ReservedNames()), names(q.ReservedNames()))
 	a.eq(n+" ReservedRanges", enumRanges(p.ReservedRanges()), enumRanges(q.ReservedRanges()))
+	a.eq(n+" ReservedRanges.Has at the ends", enumRangeHas(p.ReservedRanges(), q.ReservedRanges()), enumRangeHas(q.ReservedRanges(), q.ReservedRanges()))
+	a.eq(n+" ReservedNames.Has", namesHas(p.ReservedNames(), q.ReservedNames()), namesHas(q.ReservedNames(), q.ReservedNames()))
 }
 
 func names(n protoreflect.Names) []string {
@@ -63,6 +66,42 @@ func fieldRanges(r protoreflect.FieldRanges) [][2]protoreflect.FieldNumber {
 	var out [][2]protoreflect.FieldNumber
 	for i := 0; i < r.Len(); i++ {
 		out = append(out, r.Get(i))
+	}
+	return out
+}
+
+// enumRangeHas / fieldRangeHas probe the membership test at and just outside both ends of every range (the ranges
+// are taken from the runtime's descriptor; enum ranges include their end, field ranges do not).
+func enumRangeHas(r protoreflect.EnumRanges, probe protoreflect.EnumRanges) []bool {
+	var out []bool
+	for i := 0; i < probe.Len(); i++ {
+		x := probe.Get(i)
+		for _, n := range []int64{int64(x[0]) - 1, int64(x[0]), int64(x[1]), int64(x[1]) + 1} {
+			if n >= math.MinInt32 && n <= math.MaxInt32 {
+				out = append(out, r.Has(protoreflect.EnumNumber(n)))
+			}
+		}
+	}
+	return out
+}
+
+func fieldRangeHas(r protoreflect.FieldRanges, probe protoreflect.FieldRanges) []bool {
+	var out []bool
+	for i := 0; i < probe.Len(); i++ {
+		x := probe.Get(i)
+		for _, n := range []int64{int64(x[0]) - 1, int64(x[0]), int64(x[1]) - 1, int64(x[1])} {
+			if n >= 1 && n <= 536870911 {
+				out = append(out, r.Has(protoreflect.FieldNumber(n)))
+			}
+		}
+	}
+	return out
+}
+
+func namesHas(n protoreflect.Names, probe protoreflect.Names) []bool {
+	out := []bool{n.Has("no_such_name_")}
+	for i := 0; i < probe.Len(); i++ {
+		out = append(out, n.Has(probe.Get(i)))
 	}
 	return out
 }
@@ -194,6 +233,9 @@ func cmpMessage(a *attrs, p, q protoreflect.MessageDescriptor) {
 	a.eq(n+" ReservedNames", names(p.ReservedNames()), names(q.ReservedNames()))
 	a.eq(n+" ReservedRanges", fieldRanges(p.ReservedRanges()), fieldRanges(q.ReservedRanges()))
 	a.eq(n+" ExtensionRanges", fieldRanges(p.ExtensionRanges()), fieldRanges(q.ExtensionRanges()))
+	a.eq(n+" ReservedRanges.Has at the ends", fieldRangeHas(p.ReservedRanges(), q.ReservedRanges()), fieldRangeHas(q.ReservedRanges(), q.ReservedRanges()))
+	a.eq(n+" ExtensionRanges.Has at the ends", fieldRangeHas(p.ExtensionRanges(), q.ExtensionRanges()), fieldRangeHas(q.ExtensionRanges(), q.ExtensionRanges()))
+	a.eq(n+" ReservedNames.Has", namesHas(p.ReservedNames(), q.ReservedNames()), namesHas(q.ReservedNames(), q.ReservedNames()))
 	var pr, qr []int
 	for i := 0; i < p.RequiredNumbers().Len(); i++ {
 		pr = append(pr, int(p.RequiredNumbers().Get(i)))
@@ -274,7 +316,14 @@ func cmpFile(a *attrs, p, q protoreflect.FileDescriptor) {
 func c04Check(c wsCase, r *ev.Rec) error {
 	files, err := compileMap(c.Files, c.Names, compileOpts{})
 	if err != nil {
+		if c.Mutation != "" {
+			r.Case(ev.JSONFP(c.Files), false, "mutant-rejected")
+			return nil
+		}
 		return fmt.Errorf("workspace rejected: %v\n%s", err, showFiles(c.Files))
+	}
+	if c.Mutation != "" {
+		r.Label("mutant-accepted:" + c.Mutation)
 	}
 	all := allFiles(files)
 	set := &descriptorpb.FileDescriptorSet{}
@@ -302,6 +351,7 @@ func c04Check(c wsCase, r *ev.Rec) error {
 		return fmt.Errorf("%d attribute(s) differ (of %d compared):\n%s%s", len(a.errs), a.n, msg, showFilesNoSchema(c.Files))
 	}
 	nt, labels := wsNontrivial(c)
+	nt = nt || c.Mutation != ""
 	r.Case(ev.JSONFP(c.Files), nt, labels...)
 	r.LabelN("attributes-compared", a.n)
 	if nt && r.WantSample() {
@@ -312,13 +362,29 @@ func c04Check(c wsCase, r *ev.Rec) error {
 
 func TestC04_Generated(t *testing.T) {
 	ev.Run(t, ev.Spec[wsCase]{ID: "C04", Name: "Generated", Quick: 700, Thorough: 35000,
-		Rule: "generated valid workspaces (proto2/proto3/edition 2023 mixes; editions features at file, field and enum level: field_presence incl. LEGACY_REQUIRED and IMPLICIT, repeated_field_encoding, message_encoding DELIMITED, enum_type, utf8_validation; packed options, proto3 optional, maps, groups, defaults, json_name, extensions, reserved/extension ranges, services; optionally custom options); oracle: protodesc.NewFiles must accept the compiled protos, and for EVERY file/message/field/extension/oneof/enum/service/method the compiler's descriptor reports the same name, number, kind, cardinality, HasPresence, HasOptionalKeyword, IsPacked, IsList/IsMap/IsExtension, JSON and text name (+ lookups), default and default enum value, containing oneof/message, message/enum type, IsClosed, IsMapEntry, RequiredNumbers, reserved names/ranges, extension ranges, streaming flags as the runtime's descriptor, and protoutil.ResolveFeature agrees with the runtime's derived presence/packing/delimited behaviour; non-trivial = references plus options/defaults or several files; distinct by file texts",
+		Rule: "generated valid workspaces (proto2/proto3/edition 2023 mixes; editions features at file, field and enum level: field_presence incl. LEGACY_REQUIRED and IMPLICIT, repeated_field_encoding, message_encoding DELIMITED, enum_type, utf8_validation; packed options, proto3 optional, maps, groups, defaults, json_name, extensions, reserved/extension ranges, services; optionally custom options); oracle: protodesc.NewFiles must accept the compiled protos, and for EVERY file/message/field/extension/oneof/enum/service/method the compiler's descriptor reports the same name, number, kind, cardinality, HasPresence, HasOptionalKeyword, IsPacked, IsList/IsMap/IsExtension, JSON and text name (+ lookups), default and default enum value, containing oneof/message, message/enum type, IsClosed, IsMapEntry, RequiredNumbers, reserved names/ranges, extension ranges (lists and the Has membership test at and around both ends of every range), streaming flags as the runtime's descriptor, and protoutil.ResolveFeature agrees with the runtime's derived presence/packing/delimited behaviour; non-trivial = references plus options/defaults or several files; distinct by file texts",
 		Gen: func(t *rapid.T) wsCase {
 			ws := gen.GenWorkspace(t, gen.Config{CustomOpts: gen.Pct(t, 30, "custom")})
 			if gen.Pct(t, 50, "relative") {
 				gen.RespellRefs(t, ws)
 			}
 			return wsCase{Files: ws.PrintAll(), Names: ws.Names()}
+		},
+		Check: c04Check})
+}
+
+// TestC04_Mutants: whatever the compiler accepts must be acceptable to the runtime - also when the generator meant
+// the workspace to be invalid (a defect the compiler fails to notice usually shows up here as a runtime rejection).
+func TestC04_Mutants(t *testing.T) {
+	ev.Run(t, ev.Spec[wsCase]{ID: "C04", Name: "Mutants", Quick: 400, Thorough: 20000,
+		Rule: "generated workspaces with one injected defect (the C01 operators); a rejected workspace is outside the property's domain and only counted; an ACCEPTED one (the operator did not apply, or the compiler does not see the defect) goes through the same oracle as Generated, first of all protodesc.NewFiles accepting the compiled protos; non-trivial = accepted",
+		Gen: func(t *rapid.T) wsCase {
+			ws := gen.GenWorkspace(t, gen.Config{})
+			m := gen.Mutate(t, ws)
+			if m == "" {
+				m = "none-applicable"
+			}
+			return wsCase{Files: ws.PrintAll(), Names: ws.Names(), Mutation: m}
 		},
 		Check: c04Check})
 }
